@@ -26,6 +26,15 @@ def eraseCtl (c : CtlSt) (st : DStore) (r : Regs) : InitSt :=
 
 /-- the operations of the start-up analysis over the model's device (`ph`), configuration (`cfg`) and fan (`fan`) -/
 def initOps (indef : Int) (ph : Phys) (cfg : FanCfg) (fan : FanSt) : Generated3.InitOps InitSt where
+  -- the operations only `RunInitializationSequence` uses (its own tie, over a richer state, is Props/Trans3RunInit.lean)
+  setPwm := fun _ s => (.panic "not-used-here", s)
+  getPwm := fun s => (.panic "not-used-here", s)
+  waitForFanToSettle := fun s => (.ok (), s)
+  fan_GetRpm := fun s => (.panic "not-used-here", s)
+  fan_SetRpmAvg := fun _ s => (.ok (), s)
+  fan_AttachFanRpmCurveData := fun _ s => (.panic "not-used-here", s)
+  persistence_SaveFanPwmData := fun s => (.panic "not-used-here", s)
+  get_cfg_RunFanInitializationInParallel := fun s => (.ok true, s)
   fan_Supports := fun k s => (.ok (if k = 0 then cfg.pwmRead else if k = 1 then cfg.hasRpm else if k = 2 then cfg.hasMode else false), s)
   fan_GetPwm := fun s => (.ok (if cfg.pwmRead then (s.regs.pwm, none) else (0, some "read")), s)
   fan_SetPwm := fun v s => (.ok none, { s with regs := ph.write s.regs v })
